@@ -3,7 +3,6 @@ package rlib
 import (
 	"fmt"
 	"strings"
-	"time"
 
 	"google.golang.org/grpc/codes"
 	"google.golang.org/grpc/status"
@@ -65,7 +64,11 @@ type Op struct {
 	CreatedCB     bool
 	Before        string // "", "delta", "noop"
 	After         string // "", "derive", "noop"
-	WriteTick     int64 // >0: WithWriteTime(Epoch+tick)
+	WriteTick     int64 // != 0: WithWriteTime(TimeOfTick(tick)): Epoch+tick seconds (negative: before the epoch), ZeroTimeTick: time.Time{}
+
+	// SameObject: the message handed to the write is the very object an unmasked Get of that item returned just before
+	// (Val is a copy of it for the model). Only drawn where the library does not filter its input in place.
+	SameObject bool
 
 	ReadMask *fieldmaskpb.FieldMask
 	Include  string // List only: "", "id<b", "counter-odd", "has-derived" (see IncludeFn)
@@ -136,7 +139,9 @@ func (o Op) String() string {
 	if o.After != "" {
 		fmt.Fprintf(&sb, " after=%s", o.After)
 	}
-	if o.WriteTick > 0 {
+	if o.WriteTick == ZeroTimeTick {
+		sb.WriteString(" writeTime=time.Time{}")
+	} else if o.WriteTick != 0 {
 		fmt.Fprintf(&sb, " writeTime=T%d", o.WriteTick)
 	}
 	return sb.String()
@@ -164,8 +169,9 @@ func (o Op) OptionKey() string {
 	add(o.CreatedCB, "ccb")
 	add(o.Before != "", "ib")
 	add(o.After != "", "ia")
-	add(o.WriteTick > 0, "wt")
+	add(o.WriteTick != 0, "wt")
 	add(o.Include != "", "inc")
+	add(o.SameObject, "same")
 	return string(o.Kind) + "[" + strings.Join(k, ",") + "]"
 }
 
@@ -271,6 +277,15 @@ func checkFn(spec string) func(old proto.Message) error {
 		var code codes.Code
 		_ = code.UnmarshalJSON([]byte(`"` + strings.TrimPrefix(spec, "reject:") + `"`))
 		return func(proto.Message) error { return status.Error(code, "check refused") }
+	case strings.HasPrefix(spec, "counter<="):
+		var n int64
+		fmt.Sscanf(spec, "counter<=%d", &n)
+		return func(old proto.Message) error {
+			if GetCounter(old) > n {
+				return status.Errorf(codes.OutOfRange, "counter is %d, more than %d", GetCounter(old), n)
+			}
+			return nil
+		}
 	case strings.HasPrefix(spec, "counter="):
 		var n int64
 		fmt.Sscanf(spec, "counter=%d", &n)
@@ -291,63 +306,121 @@ type CallLog struct {
 	BeforeOld []proto.Message
 }
 
+// OptCache keeps the option values of earlier calls so that a later call with the same option content passes the very
+// same option value again, the way a caller does who builds `opts := []resource.WriteOption{...}` once and uses it for
+// every write. Callbacks record into Cur, which the runner points at the log of the call in progress.
+type OptCache struct {
+	Cur    *CallLog
+	opts   map[string]resource.WriteOption
+	Reused int
+}
+
+func (c *OptCache) get(key string, mk func() resource.WriteOption) resource.WriteOption {
+	if c == nil {
+		return mk()
+	}
+	if c.opts == nil {
+		c.opts = map[string]resource.WriteOption{}
+	}
+	if o, ok := c.opts[key]; ok {
+		c.Reused++
+		return o
+	}
+	o := mk()
+	c.opts[key] = o
+	return o
+}
+
+func msgKey(m proto.Message) string {
+	b, _ := proto.MarshalOptions{Deterministic: true}.Marshal(m)
+	return string(m.ProtoReflect().Descriptor().FullName()) + ":" + string(b)
+}
+
 // WriteOptions translates the op into resource write options; callbacks record into log.
-func (o Op) WriteOptions(log *CallLog) []resource.WriteOption {
+func (o Op) WriteOptions(log *CallLog) []resource.WriteOption { return o.WriteOptionsReusing(nil, log) }
+
+// WriteOptionsReusing is WriteOptions drawing equal options from the cache (nil cache: every option is built afresh).
+func (o Op) WriteOptionsReusing(c *OptCache, log *CallLog) []resource.WriteOption {
+	if c != nil {
+		c.Cur = log
+	}
+	cur := func() *CallLog {
+		if c != nil {
+			return c.Cur
+		}
+		return log
+	}
+	mk := func(key string, f func() resource.WriteOption) resource.WriteOption { return c.get(key, f) }
+	mkMask := func(kind string, m *fieldmaskpb.FieldMask, f func(*fieldmaskpb.FieldMask) resource.WriteOption) resource.WriteOption {
+		return mk(kind+":"+lib.MaskString(m), func() resource.WriteOption { return f(lib.CloneMask(m)) })
+	}
 	var opts []resource.WriteOption
 	if o.UpdateMask != nil {
-		opts = append(opts, resource.WithUpdateMask(lib.CloneMask(o.UpdateMask)))
+		opts = append(opts, mkMask("um", o.UpdateMask, resource.WithUpdateMask))
 	}
 	if o.MoreUpdateMask != nil {
-		opts = append(opts, resource.WithMoreUpdateMask(lib.CloneMask(o.MoreUpdateMask)))
+		opts = append(opts, mkMask("mum", o.MoreUpdateMask, resource.WithMoreUpdateMask))
 	}
 	if o.ResetMask != nil {
-		opts = append(opts, resource.WithResetMask(lib.CloneMask(o.ResetMask)))
+		opts = append(opts, mkMask("rm", o.ResetMask, resource.WithResetMask))
 	}
 	if o.MoreWritable != nil {
-		opts = append(opts, resource.WithMoreWritableFields(lib.CloneMask(o.MoreWritable)))
+		opts = append(opts, mkMask("mw", o.MoreWritable, resource.WithMoreWritableFields))
 	}
 	if o.AllWritable {
-		opts = append(opts, resource.WithAllFieldsWritable())
+		opts = append(opts, mk("aw", resource.WithAllFieldsWritable))
 	}
 	if o.Expected != nil {
-		opts = append(opts, resource.WithExpectedValue(proto.Clone(o.Expected)))
+		opts = append(opts, mk("ev:"+msgKey(o.Expected), func() resource.WriteOption { return resource.WithExpectedValue(proto.Clone(o.Expected)) }))
 	}
 	if o.Check != "" {
-		opts = append(opts, resource.WithExpectedCheck(checkFn(o.Check)))
+		opts = append(opts, mk("ec:"+o.Check, func() resource.WriteOption { return resource.WithExpectedCheck(checkFn(o.Check)) }))
 	}
 	if o.ExpectAbsent {
-		opts = append(opts, resource.WithExpectAbsent())
+		opts = append(opts, mk("ea", resource.WithExpectAbsent))
 	}
 	if o.CreateIfAbsent {
-		opts = append(opts, resource.WithCreateIfAbsent())
+		opts = append(opts, mk("cia", resource.WithCreateIfAbsent))
 	}
 	if o.AllowMissing {
-		opts = append(opts, resource.WithAllowMissing(true))
+		opts = append(opts, mk("am", func() resource.WriteOption { return resource.WithAllowMissing(true) }))
 	}
 	if o.GenID {
-		opts = append(opts, resource.WithGenIDIfAbsent(), resource.WithIDCallback(func(id string) { log.IDs = append(log.IDs, id) }))
+		opts = append(opts, mk("gen", resource.WithGenIDIfAbsent), mk("idcb", func() resource.WriteOption {
+			return resource.WithIDCallback(func(id string) { l := cur(); l.IDs = append(l.IDs, id) })
+		}))
 	}
 	if o.CreatedCB {
-		opts = append(opts, resource.WithCreatedCallback(func() { log.Created++ }))
+		opts = append(opts, mk("ccb", func() resource.WriteOption { return resource.WithCreatedCallback(func() { cur().Created++ }) }))
 	}
 	switch o.Before {
 	case "delta":
-		opts = append(opts, resource.InterceptBefore(func(old, change proto.Message) {
-			// read the old message the way a callback would
-			_ = proto.Size(old)
-			beforeDelta(old, change)
+		opts = append(opts, mk("ib:delta", func() resource.WriteOption {
+			return resource.InterceptBefore(func(old, change proto.Message) {
+				// read the old message the way a callback would
+				_ = proto.Size(old)
+				beforeDelta(old, change)
+			})
 		}))
 	case "noop":
-		opts = append(opts, resource.InterceptBefore(func(old, change proto.Message) { _ = proto.Size(old) }))
+		opts = append(opts, mk("ib:noop", func() resource.WriteOption {
+			return resource.InterceptBefore(func(old, change proto.Message) { _ = proto.Size(old) })
+		}))
 	}
 	switch o.After {
 	case "derive":
-		opts = append(opts, resource.InterceptAfter(func(old, new proto.Message) { _ = proto.Size(old); afterDerive(old, new) }))
+		opts = append(opts, mk("ia:derive", func() resource.WriteOption {
+			return resource.InterceptAfter(func(old, new proto.Message) { _ = proto.Size(old); afterDerive(old, new) })
+		}))
 	case "noop":
-		opts = append(opts, resource.InterceptAfter(func(old, new proto.Message) { _ = proto.Size(old) }))
+		opts = append(opts, mk("ia:noop", func() resource.WriteOption {
+			return resource.InterceptAfter(func(old, new proto.Message) { _ = proto.Size(old) })
+		}))
 	}
-	if o.WriteTick > 0 {
-		opts = append(opts, resource.WithWriteTime(Epoch.Add(time.Duration(o.WriteTick)*time.Second)))
+	if o.WriteTick != 0 {
+		opts = append(opts, mk(fmt.Sprintf("wt:%d", o.WriteTick), func() resource.WriteOption {
+			return resource.WithWriteTime(TimeOfTick(o.WriteTick))
+		}))
 	}
 	return opts
 }
